@@ -2,7 +2,7 @@
    field.  Statements only.  Spec/Smpp5.v is written from the specification's
    syntax tables (sections 4.1-4.6), not from the Go structs; [layouts] and
    [field_names] are regenerated from the running code on every run. *)
-From V Require Import Model.Pdu Spec.Smpp5 Gen.PduLayouts Proofs.PduRoundtripProofs Proofs.PduStableProofs Proofs.PduSpecProofs.
+From V Require Import Model.Pdu Spec.Smpp5 Gen.PduLayouts Proofs.PduRoundtripProofs Proofs.PduStableProofs Proofs.PduSpecProofs Proofs.PduConverseProofs.
 From Coq Require Import Permutation.
 Open Scope N_scope.
 
@@ -94,11 +94,46 @@ Theorem C02_spec_short_message_decodes : forall (rep : bool) (dc dflt : N) (u : 
             ((if rep then [] else [dc]) ++ [dflt; len o] ++ o ++ rest)
   = Ok ({| sm_dflt := dflt; sm_dc := (if rep then NoCoding else dc); sm_udh := u; sm_msg := msg |}, rest).
 Proof. exact spec_short_decodes. Qed.
-(* PARTIAL: the whole-PDU converse "forall spec values svs, unmarshal lay (spec_frame .. (lay_params (erase lay) svs)) = Ok (of_spec lay svs)"
-   without the Marshal hypothesis is proven per field kind only: C-octet strings, integers, addresses (C01's per-kind
-   lemmas, which quantify over arbitrary octets), destinations in any order (C02_dests_any_order), TLVs and the short
-   message (the two theorems above).  Missing: an [of_spec] function and the induction over the parameter list that
-   composes them (audit F2). *)
+(* THE WHOLE-PDU CONVERSE, no hypothesis about Marshal.  Specification-level values [xval] (Proofs/PduConverseProofs.v):
+   C-octet strings, one-octet integers, destination entries in transmission order (kinds interleaved), unsuccess records,
+   a short message = optional user data header + message with ANY sm_length 0..255, TLVs in transmission order (any
+   order, duplicates, zero-length values).  [flat] maps them to the values of Spec/Smpp5.v, [lay_params (erase lay)] lays
+   them out with the specification encoder, [of_x_fields] says what the decoder returns: the values laid out, booleans
+   as (octet = 1), flag octets split at the SMPP bit positions, destinations split by kind, the user data header present
+   exactly when the esm_class octet laid out earlier has the indicator set, and for TLVs the map holding per tag the LAST
+   value sent (empty values included).  For EVERY registered type (= every operation of spec_command_ids, by
+   C02_registry_complete), every such value list, every sequence number, every read schedule and whatever follows the frame: *)
+Theorem C02_spec_converse : forall lay ks xs vs body q,
+  In lay layouts -> l_fields lay = FHeader :: ks ->
+  of_x_fields lay ks xs false = Some vs ->
+  lay_params (erase lay) (map flat xs) = Some body ->
+  16 + len body <= 65536 -> q < 4294967296 ->
+  forall rest sched, exists sched',
+    read_pdu layouts {| st_data := spec_frame (l_id lay) 0 q body ++ rest; st_sched := sched |}
+    = (RpOk lay (VHeader {| h_len := 16 + len body; h_id := l_id lay; h_status := 0; h_seq := i32_of_u32 q |} :: vs),
+       16 + len body, {| st_data := rest; st_sched := sched' |}).
+Proof. exact spec_converse_registered. Qed.
+(* ... the decoder statement for ANY layout with a leading header (not only the registered ones) *)
+Theorem C02_spec_converse_any_layout : forall lay ks xs vs body q,
+  l_fields lay = FHeader :: ks -> l_id lay < 4294967296 ->
+  of_x_fields lay ks xs false = Some vs ->
+  lay_params (erase lay) (map flat xs) = Some body ->
+  16 + len body <= 65536 -> q < 4294967296 ->
+  unmarshal lay (spec_frame (l_id lay) 0 q body)
+  = Ok (VHeader {| h_len := 16 + len body; h_id := l_id lay; h_status := 0; h_seq := i32_of_u32 q |} :: vs).
+Proof. exact spec_converse. Qed.
+(* Restriction that remains (said here, not hidden): the information elements of a user data header are laid out in
+   ascending identifier order without repeats ([wf_udh]); for TLVs and destinations any order is covered.
+   Non-vacuity: TLVs unsorted / repeated / empty; a submit_sm with a user data header and sm_length 200. *)
+Example C02_spec_converse_inhabited :
+  of_x_fields (lay_of 2147483653) [FCStr; FTags] conv_ex_resp false
+    = Some [VStr [109; 49]; VTags [(5, [9]); (7, []); (1060, [3])]] /\
+  match of_x_fields (lay_of 4) (tl (l_fields (lay_of 4))) conv_ex_submit false,
+        lay_params (erase (lay_of 4)) (map flat conv_ex_submit) with
+  | Some vs, Some body => (len body =? 223) && (nth 18 body 0 =? 200) && (N.of_nat (List.length vs) =? 12)
+  | _, _ => false
+  end = true.
+Proof. exact converse_examples. Qed.
 
 (* 4. No misstatement: for any Go value (octets are octets; flag structs with ANY sub-field values;
    UDH present exactly when the indicator is set; data_coding <> 0xBF; skipped field zero), if Marshal
@@ -131,5 +166,7 @@ Print Assumptions C02_spec_frame_any_tlv_order.
 Print Assumptions C02_dests_any_order.
 Print Assumptions C02_spec_tlvs_decode.
 Print Assumptions C02_spec_short_message_decodes.
+Print Assumptions C02_spec_converse.
+Print Assumptions C02_spec_converse_any_layout.
 Print Assumptions C02_no_misstatement.
 Print Assumptions C02_flag_width_refused.
